@@ -138,7 +138,7 @@ def _commute(xi, a, b, x):
 
 
 QUICK = [("list", 1), ("strict", 0)]
-YKINDS_QUICK = ["delete", "replace", "add_mark", "split"]
+YKINDS_QUICK = ["delete", "replace", "add_mark", "remove_mark", "split"]
 
 
 def obligations(tier, seed):
